@@ -936,6 +936,8 @@ fn subsets_with(nm: usize, must: usize) -> Vec<Vec<bool>> {
 fn spaces(tier: Tier) -> Vec<Space> {
     let thorough = tier == Tier::Thorough;
     let mut out: Vec<Space> = vec![];
+    // the largest spaces go last so that a time cap cuts them first
+    let mut last: Vec<Space> = vec![];
     let one = sets_1axis();
 
     // ---- A: all advance assignments, k glyphs
@@ -944,9 +946,22 @@ fn spaces(tier: Tier) -> Vec<Space> {
         if nm > 3 {
             continue;
         }
-        let alpha: Vec<f64> = if thorough || nm == 2 { ADV5.to_vec() } else { ADV4.to_vec() };
+        // quick: the full alphabet on the 2-master sets, {0,200,517.5,1000} on {-1,0,1}, {200,517.5,1000} on {0,.5,1}
+        let alpha: Vec<f64> = if thorough || nm == 2 {
+            ADV5.to_vec()
+        } else if si == 2 {
+            ADV4.to_vec()
+        } else {
+            ADV3.to_vec()
+        };
         let per_glyph = alpha.len().pow(nm as u32);
-        let notdef_modes: Vec<usize> = if thorough { vec![0, 1, 2, 3] } else { vec![0, 1, 2] };
+        let notdef_modes: Vec<usize> = if thorough {
+            vec![0, 1, 2, 3]
+        } else if nm == 2 {
+            vec![0, 1, 2]
+        } else {
+            vec![0, 1]
+        };
         let set = set.clone();
         let (a2, nd2) = (alpha.clone(), notdef_modes.clone());
         let set2 = set.clone();
@@ -970,10 +985,10 @@ fn spaces(tier: Tier) -> Vec<Space> {
             }),
         });
         if thorough && nm == 3 {
-            let a4 = ADV4.to_vec();
+            let a4 = if si == 2 { ADV4.to_vec() } else { ADV3.to_vec() };
             let per = a4.len().pow(nm as u32);
             let set3 = set.clone();
-            out.push(Space {
+            last.push(Space {
                 name: format!("adv3/set{si}"),
                 what: format!(
                     "1 axis, masters {:?}; glyphs A, B, C: every assignment of per-master advances from {:?} to all three; .notdef absent / constant",
@@ -1019,6 +1034,8 @@ fn spaces(tier: Tier) -> Vec<Space> {
                 Some(s.iter().enumerate().map(|(m, b)| if *b { p[m] } else { None }).collect())
             }))
             .collect();
+        // quick: on the 4-master set C stays absent
+        let cvars: Vec<Option<Vec<Option<f64>>>> = if !thorough && nm == 4 { vec![None] } else { cvars };
         let nds = [0usize, 1, 2];
         let set2 = set.clone();
         let n = bvars.len() * cvars.len() * nds.len();
@@ -1229,11 +1246,10 @@ fn spaces(tier: Tier) -> Vec<Space> {
     // ---- M1: one metric varied at a time, every per-master pattern over {v, v+7, v-13}
     {
         let mut sets: Vec<Vec<Vec<f64>>> = one.clone();
-        let two = sets_2axis(4, false);
         if thorough {
-            sets.extend(two.iter().cloned());
+            sets.extend(sets_2axis(4, false));
         } else {
-            sets.extend(two.iter().step_by(17).cloned());
+            sets.extend(sets_2axis(3, false).into_iter().step_by(5));
         }
         let mut idx: Vec<(usize, usize, usize)> = vec![]; // set, metric, pattern
         for (si, set) in sets.iter().enumerate() {
@@ -1246,9 +1262,9 @@ fn spaces(tier: Tier) -> Vec<Space> {
         out.push(Space {
             name: "mvar-one".into(),
             what: format!(
-                "{} master sets (all five 1-axis sets; 2-axis sets with <= 4 masters: {}); every metric of the {}-entry MVAR table (vertical ones with vertical metrics on) varied alone with every per-master pattern over {{v, v+7, v-13}}; all keys explicit; glyph A constant",
+                "{} master sets (all five 1-axis sets; 2-axis sets: {}); every metric of the {}-entry MVAR table (vertical ones with vertical metrics on) varied alone with every per-master pattern over {{v, v+7, v-13}}; all keys explicit; glyph A constant",
                 sets.len(),
-                if thorough { "all" } else { "every 17th" },
+                if thorough { "all with <= 4 masters" } else { "every 5th of those with <= 3 masters" },
                 METRICS.len()
             ),
             n: idx.len(),
@@ -1381,6 +1397,10 @@ fn spaces(tier: Tier) -> Vec<Space> {
             }),
         });
     }
+    out.extend(last);
+    for s in &out {
+        assert!(s.n > 0, "empty space {}", s.name);
+    }
     out
 }
 
@@ -1456,21 +1476,17 @@ fn main() {
     }
     let locate = |i: usize| -> (usize, usize) {
         let si = match starts.binary_search(&i) {
-            Ok(k) => {
-                // skip empty spaces sharing a start
-                let mut k = k;
-                while sp[k].n == 0 {
-                    k += 1;
-                }
-                k
-            }
+            Ok(k) => k,
             Err(k) => k - 1,
         };
         (si, i - starts[si])
     };
     let chunk = 64usize;
     let nchunks = total.div_ceil(chunk);
-    let budget_s = args.tier.pick(150.0, 1500.0);
+    let budget_s: f64 = std::env::var("VERIF_C04_BUDGET_S")
+        .ok()
+        .and_then(|s| s.parse().ok())
+        .unwrap_or(args.tier.pick(50.0, 1500.0));
     let t0 = std::time::Instant::now();
     let results = vcore::par_for(nchunks, vcore::ncores(), |ci| {
         let mut st = Stats::default();
